@@ -13,6 +13,7 @@ ev == Trace[l]
 
 TraceInit == Fresh(Cfg("raw", FALSE, "none", TRUE, TRUE, "ok")) /\ l = 1 /\ TLCSet(1, 1)
 
+
 Consume(name) == l <= Len(Trace) /\ ev.ev = name /\ l' = l + 1
 
 TraceTok == /\ Consume("Tok")
@@ -25,17 +26,20 @@ TraceTok == /\ Consume("Tok")
 TraceUdp == /\ Consume("Udp")
             /\ Step(ev.tok)
             /\ last'.res = ev.res
-            /\ client' = ev.client /\ relayed' = ev.relayed /\ replies' = ev.replies
+            /\ client' = ev.client /\ relayed' = ev.relayed /\ replies' = ev.replies /\ declared' = ev.declared
 
 TraceReset == /\ Consume("Reset")
               /\ cfg' = ev.cfg
               /\ phase' = IF ev.cfg.tr = "ws" THEN "http" ELSE "greet"
               /\ method' = "none" /\ authed' = FALSE /\ sentValid' = FALSE /\ exec' = "" /\ nrep' = 0
-              /\ assoc' = "none" /\ declared' = FALSE /\ client' = "none" /\ relayed' = <<>> /\ replies' = <<>>
-              /\ ndg' = 0 /\ nmr' = 0
+              /\ assoc' = "none" /\ declared' = "none" /\ reqdecl' = "none" /\ client' = "none" /\ relayed' = <<>>
+              /\ replies' = <<>> /\ ndg' = 0 /\ nmr' = 0 /\ warm' = FALSE /\ nconn' = 1
               /\ last' = [act |-> "Init"]
 
-TraceNext == TraceTok \/ TraceUdp \/ TraceReset
+\* the next connection to the same running server (the server's memory - warm - is kept)
+TraceConn == Consume("Conn") /\ Step(NC)
+
+TraceNext == TraceTok \/ TraceUdp \/ TraceReset \/ TraceConn
 TraceSpec == TraceInit /\ [][TraceNext]_<<vars, l>>
 
 HighWater == TLCSet(1, IF l > TLCGet(1) THEN l ELSE TLCGet(1))
